@@ -209,6 +209,22 @@ def classify(lin, gap=0.03, unit_tol=1e-8):
     n_stable = int(np.sum(mod < 1.0 - unit_tol))
     # repeated unit roots would give polynomial growth: not certified
     certified = (not near.any()) and n_unit <= len(lin.tnames)
+    rank_cond = None
+    if n_unstable == n_forward and np.all(np.isfinite(A)) and np.all(np.isfinite(B)):
+        # Blanchard-Kahn rank condition by the oracle's own ordered QZ: the stable invariant subspace must map one-to-one
+        # onto the predetermined (non-forward) part of xi; otherwise the counting verdict is accidental
+        try:
+            def stable_first(alpha, beta):
+                with np.errstate(divide="ignore", invalid="ignore"):
+                    return np.abs(beta) <= (1.0 + unit_tol) * np.abs(alpha)
+            _, _, _, _, _, Zq = sla.ordqz(A, B, sort=stable_first, output="complex")
+            nb = len(toks) - n_forward
+            Z21 = Zq[n_forward:, :nb]
+            rank_cond = float(np.linalg.cond(Z21)) if nb else 1.0
+            if not np.isfinite(rank_cond) or rank_cond > 1e6:
+                certified = False
+        except Exception:
+            certified = False
     if n_unstable == n_forward:
         verdict = "determinate"
     elif n_unstable > n_forward:
@@ -219,5 +235,6 @@ def classify(lin, gap=0.03, unit_tol=1e-8):
         "square": True, "certified": bool(certified), "verdict": verdict, "n_forward": n_forward,
         "n_unstable": n_unstable, "n_unit": n_unit, "n_stable": n_stable,
         "moduli": sorted(float(m) if np.isfinite(m) else float("inf") for m in mod),
+        "rank_condition_cond": rank_cond,
         "tokens": toks,
     }
